@@ -58,6 +58,38 @@ def overlay_json(extra=None):
     return path
 
 
+def perturbed_lsp():
+    """Overlay copies of internal/lsp/lint.go and server.go, made from the CURRENT files, in which only the schedule is
+    perturbed: a sleep before every statement that stores parse / lint results in the cache and before a non-empty
+    publishDiagnostics notification. The windows between "look" and "store" / "read" and "notify" are microseconds wide in
+    the real binary; with the sleeps an interleaving that lands in them can be produced by pacing the events. No value
+    and no control flow is changed. Returns (overlay entries, ok); fails closed when an anchor is missing."""
+    import re as _re
+    os.makedirs(BUILD, exist_ok=True)
+    tag = hashlib.sha1(REPO.encode()).hexdigest()[:8]
+    lint_path = os.path.join(REPO, "internal", "lsp", "lint.go")
+    srv_path = os.path.join(REPO, "internal", "lsp", "server.go")
+    try:
+        lint, srv = open(lint_path).read(), open(srv_path).read()
+    except OSError:
+        return {}, False
+    lint2, n = _re.subn(r"(?m)^(\s*)(cache\.Set(?:FileDiagnosticsForRules|FileDiagnostics|FileAggregates|Module|ParseErrors)\()",
+                        r"\1time.Sleep(25 * time.Millisecond)\n\1\2", lint)
+    anchor = "\tif err := l.conn.Notify(ctx, methodTextDocumentPublishDiagnostics, resp); err != nil {"
+    if n == 0 or srv.count(anchor) != 1 or '\t"time"\n' not in srv:
+        return {}, False
+    if '\t"time"\n' not in lint2:
+        lint2 = lint2.replace('import (\n', 'import (\n\t"time"\n', 1)
+    srv2 = srv.replace(anchor, "\tif len(fileDiags) > 0 {\n\t\ttime.Sleep(40 * time.Millisecond)\n\t}\n\n" + anchor)
+    out = {}
+    for name, path, text in (("lint", lint_path, lint2), ("server", srv_path, srv2)):
+        cp = os.path.join(BUILD, "perturbed-%s-%s.go" % (name, tag))
+        with open(cp, "w") as fh:
+            fh.write(text)
+        out[path] = cp
+    return out, True
+
+
 def gated_linter():
     """Overlay copy of pkg/linter/linter.go with the schedule gates inserted (source-to-source, from the
     CURRENT file; returns (overlay-entry dict, ok)). Fails closed: if an anchor is missing the copy is not
